@@ -185,6 +185,25 @@ func TestVerif_Probes(t *testing.T) {
 			}
 		}
 	}
+	// a rejected registration (duplicate name) must leave nothing locked: commits and registrations afterwards complete
+	{
+		db := statedb.New()
+		tabs := concw.NewTables(db, "r", 2)
+		if _, err := statedb.NewTable(db, "r1", concw.IDIndex); err == nil {
+			r.Violation("duplicate-table-accepted", 0, map[string]any{"message": "NewTable with an existing name did not fail"})
+		}
+		if !within(10*time.Second, func() {
+			w := db.WriteTxn(tabs[0], tabs[1])
+			tabs[0].Insert(w, &concw.Row{ID: "x"})
+			w.Commit()
+			statedb.NewTable(db, "r2", concw.IDIndex)
+			w = db.WriteTxn(tabs[1])
+			w.Abort()
+		}) {
+			r.Violation("blocked-after-rejected-registration", 0, map[string]any{"message": "after NewTable was rejected for a duplicate name, a following Commit / NewTable does not complete (root lock left held)"})
+		}
+		r.Case(vkit.NewHash().Str("rejected-registration").Sum(), true)
+	}
 	// single goroutine, duplicate tables in any order
 	db := statedb.New()
 	tabs := concw.NewTables(db, "d", 3)
@@ -269,7 +288,11 @@ func stressRun(r *vkit.Run, ctl *hookctl.Ctl, idx int) {
 						its = append(its[:i], its[i+1:]...)
 					}
 				case x < 88:
-					statedb.NewTable(db, fmt.Sprintf("n%dw%do%d", idx%100, w, o), concw.IDIndex)
+					if wr.IntN(3) == 0 {
+						statedb.NewTable(h, "t0", concw.IDIndex) // rejected: duplicate name
+					} else {
+						statedb.NewTable(h, fmt.Sprintf("n%dw%do%d", idx%100, w, o), concw.IDIndex)
+					}
 				default:
 					rt := h.ReadTxn()
 					for _, t := range tabs {
@@ -302,14 +325,15 @@ loop:
 				for hname, at := range snap {
 					if len(hname) > 1 && hname[:1] == "s" {
 						mine++
-						if at == "wtxn.beforeLock" {
+						// waiting for a table lock, for the root lock in Commit, or for the root lock in registerTable
+						if at == "wtxn.beforeLock" || at == "commit.beforeRootLock" || at == "register.beforeLock" {
 							blocked++
 						}
 					}
 				}
 				if mine > 0 && blocked == mine {
 					verdict = "deadlock"
-					r.Violation("deadlock", idx, map[string]any{"message": fmt.Sprintf("no operation completed for 30 s and every worker in flight (%d) is between wtxn.beforeLock and wtxn.afterLock", mine), "positions": snap,
+					r.Violation("deadlock", idx, map[string]any{"message": fmt.Sprintf("no operation completed for 30 s and every worker in flight (%d) is waiting for a table lock (wtxn.beforeLock) or the root lock (commit.beforeRootLock / register.beforeLock)", mine), "positions": snap,
 						"tables": ntab, "workers": nworkers})
 				} else {
 					verdict = "inconclusive"
